@@ -1,6 +1,7 @@
 package eng
 
 import (
+	"go/token"
 	"fmt"
 	"go/ast"
 	"go/types"
@@ -796,6 +797,7 @@ func (pr *Program) AnalysisC20(derived map[string]string) []*Obligation {
 		eu := pr.storeUseOf(export, modPath, memo, map[*FuncInfo]bool{})
 		iu := pr.storeUseOf(initg, modPath, memo, map[*FuncInfo]bool{})
 		out = append(out, pr.genesisFieldRoundTrip(m, modPath, export, initg, memo)...)
+		out = append(out, pr.exportUnconditional(m, modPath, export)...)
 		var ks []string
 		for k := range written {
 			ks = append(ks, k)
@@ -1073,4 +1075,89 @@ func (pr *Program) genesisFieldRoundTrip(m, modPath string, export, initg *FuncI
 		out = append(out, staticObl(fmt.Sprintf("x/%s/roundtrip#%s", m, f), "C20", "frame", ok, "x/"+m, src))
 	}
 	return out
+}
+
+
+// exportUnconditional: ExportGenesis (and the same-named functions of the module it delegates to) must export every
+// record it iterates over: no continue / break / goto, no return before the last statement, and every `if` tests only
+// the found/ok flag or the error of a lookup (`found`, `!found`, `ok`, `err != nil`, `err == nil`). A data-dependent
+// skip ("apps without pools have nothing to export") silently drops live state from the export.
+func (pr *Program) exportUnconditional(m, modPath string, export *FuncInfo) []*Obligation {
+	var bad []string
+	seen := map[*FuncInfo]bool{}
+	var check func(fi *FuncInfo)
+	check = func(fi *FuncInfo) {
+		if fi == nil || seen[fi] || fi.Decl == nil || fi.Decl.Body == nil {
+			return
+		}
+		seen[fi] = true
+		info := fi.Pkg.P.TypesInfo
+		body := fi.Decl.Body
+		var last ast.Stmt
+		if n := len(body.List); n > 0 {
+			last = body.List[n-1]
+		}
+		flagCond := func(e ast.Expr) bool {
+			e = unparen(e)
+			if u, ok := e.(*ast.UnaryExpr); ok && u.Op == token.NOT {
+				e = unparen(u.X)
+			}
+			if id, ok := e.(*ast.Ident); ok {
+				return id.Name == "found" || id.Name == "ok" || strings.HasPrefix(id.Name, "found") || strings.HasPrefix(id.Name, "ok")
+			}
+			if b, ok := e.(*ast.BinaryExpr); ok && (b.Op == token.NEQ || b.Op == token.EQL) {
+				x, xok := unparen(b.X).(*ast.Ident)
+				y, yok := unparen(b.Y).(*ast.Ident)
+				if xok && yok && y.Name == "nil" {
+					if t := info.TypeOf(x); t != nil && t.String() == "error" {
+						return true
+					}
+				}
+			}
+			return false
+		}
+		ast.Inspect(body, func(n ast.Node) bool {
+			switch v := n.(type) {
+			case *ast.FuncLit:
+				return false
+			case *ast.BranchStmt:
+				bad = append(bad, fmt.Sprintf("%s at %s", v.Tok, pr.Pos(v.Pos())))
+			case *ast.ReturnStmt:
+				if ast.Stmt(v) != last {
+					bad = append(bad, "early return at "+pr.Pos(v.Pos()))
+				}
+			case *ast.IfStmt:
+				if !flagCond(v.Cond) {
+					bad = append(bad, "data-dependent if at "+pr.Pos(v.Pos()))
+				}
+			case *ast.SwitchStmt, *ast.TypeSwitchStmt, *ast.SelectStmt:
+				bad = append(bad, "switch at "+pr.Pos(n.Pos()))
+			case *ast.CallExpr:
+				var obj types.Object
+				switch f := unparen(v.Fun).(type) {
+				case *ast.Ident:
+					obj = info.Uses[f]
+				case *ast.SelectorExpr:
+					if sel := info.Selections[f]; sel != nil {
+						obj = sel.Obj()
+					} else {
+						obj = info.Uses[f.Sel]
+					}
+				}
+				if fn, ok := obj.(*types.Func); ok {
+					if callee := pr.Funcs[fn]; callee != nil && callee.Obj.Name() == "ExportGenesis" && strings.HasPrefix(callee.Pkg.Path, modPath) {
+						check(callee)
+					}
+				}
+			}
+			return true
+		})
+	}
+	check(export)
+	sort.Strings(bad)
+	src := "ExportGenesis exports every record it iterates over (no skip statements, only found/err tests)"
+	if len(bad) > 0 {
+		src = "ExportGenesis may skip records: " + strings.Join(bad, "; ")
+	}
+	return []*Obligation{staticObl("x/"+m+"/export-unconditional", "C20", "frame", len(bad) == 0, "x/"+m, src)}
 }
